@@ -2,7 +2,7 @@
 # tools/seed_proc.sh <prop> <dest-dir-in-tree> <go test -run regexp> [demo-file]
 # One step of a seeded round: confirm the sub-agent's change under /tmp/seed-<prop>/ (seed_verify.sh), then run
 # the property's quick check against it in a scratch worktree (seed_run.sh). Output: /tmp/seed-<prop>/proc.out
-P=$1; DEST=$2; RUN=$3; SD=/tmp/seed-$P
+P=$1; DEST=$2; RUN=$3; SD=${SEED_DIR:-/tmp/seed-$P}
 DEMO=${4:-$(cd $SD && ls *_test.go | head -1)}
 exec 9>/tmp/seedproc.lock; flock 9
 {
